@@ -43,6 +43,8 @@ def explore(ctx):
             lines.append(G.shutdown_then_command(rng, "z%d" % k))
         for k in range({"quick": 6, "thorough": 60, "search": 12}[tier]):
             lines.append(G.shutdown_during_backoff(rng, "b%d" % k))
+        for k in range({"quick": 12, "thorough": 120, "search": 24}[tier]):
+            lines.append(G.shutdown_from_callback(rng, "y%d" % k))
         ops = ["dialok", "dialfail", "finalize", "close"]
         depth = {"quick": 5, "thorough": 7, "search": 6}[tier]
         k = 0
